@@ -18,7 +18,7 @@ DEPS = {
     'C01': MODEL + ['Proofs/C01.v'],
     'C04': MODEL + ['Proofs/C04.v'],
     'C08': MODEL + ['Proofs/C08.v'],
-    'C09': MODEL + ['Proofs/C09.v'],
+    'C09': MODEL + ['Proofs/C09.v', 'Model/Conc.v', 'Model/ConcTree.v', 'Proofs/C09c.v'],
     'C10': MODEL + ['Proofs/C10.v'],
     'C12': MODEL + ['Proofs/C08.v', 'Proofs/C12.v', 'Proofs/Reach.v'],
 }
@@ -177,6 +177,9 @@ def run(pid, tier, out):
         if cx.get('error'):
             corr_error = (corr_error or '') + ' interleaving stream: %s' % cx['error'][-600:]
             tie_broken = True
+        if cx.get('model_error'):
+            corr_error = (corr_error or '') + ' interleaving stream: %s' % cx['model_error'][-600:]
+            tie_broken = True
     seen_cx = set()
     for v in cx['violations']:
         key = (v['payload']['scenario']['name'], v['payload']['check'])
@@ -234,7 +237,8 @@ def run(pid, tier, out):
         'oracle_hits': len(hits),
         'interleaving_stream': dict(cx.get('stats') or {}, violations=len(cx['violations']),
                                     note='two requests on one entity, gap schedules + DFS enumeration on the real service; '
-                                         'oracle only (not compared with the Coq model)') if pid in CONC_EXTRA else None,
+                                         'oracle only, except C09: every executed schedule is also replayed in Model/ConcTree.v '
+                                         '(model_compared_schedules / model_disagreements)') if pid in CONC_EXTRA else None,
         'status_histogram': {str(k): v for k, v in sorted(stats['status'].items())},
         'op_histogram': dict(stats['ops']),
         'error_fraction': round(sum(v for k, v in stats['status'].items() if k >= 400) / max(1, stats['evaluations']), 3),
